@@ -156,6 +156,13 @@ def translate():
          and isinstance(t.values[1], ast.Compare) and isinstance(t.values[1].ops[0], ast.In) and isinstance(t.values[1].left, ast.Constant)
          and _u(t.values[1].comparators[0]) == "model._tx_model_params", "GlobalRepo project_root test changed: " + _u(t))
     root_key = t.values[1].left.value
+    f3 = find_func(ptree, "load_models_in_model_repo", "GlobalRepo")
+    sig_r = _sig(f3)
+    need(sig_r[:1] == ["self"], "load_models_in_model_repo: first argument is not self")
+    cs = _calls(f3, lambda c: _u(c.func) == "global_model_repo.load_models_using_filepattern")
+    need(len(cs) == 1 and _kw(cs[0], "model_params") == "ModelParams(kwargs)" and _kw(cs[0], "model") == "None"
+         and _u(cs[0].args[0]) == "filename_pattern", "load_models_in_model_repo: loading call changed")
+    need(not _calls(f3, lambda c: "check_params" in _u(c.func)), "load_models_in_model_repo now validates its parameters")
     need(_u(tests[0].body[0]) == "filename_pattern = join(model._tx_model_params[%r], filename_pattern)" % root_key, "GlobalRepo project_root join changed")
 
     def lst(xs):
@@ -166,6 +173,8 @@ def translate():
         "   these names is bound to that argument, never to **kwargs) *)",
         "Definition sig_from_str : list (list N) := %s." % lst(sig_s),
         "Definition sig_from_file : list (list N) := %s." % lst(sig_f),
+        "(* argument names of GlobalRepo.load_models_in_model_repo *)",
+        "Definition sig_repo : list (list N) := %s." % lst(sig_r),
         "(* RESERVED_PARAM_NAMES: names ModelParamDefinitions.add refuses *)",
         "Definition reserved_names : list (list N) := %s." % lst(reserved),
         "(* parameters every TextXMetaModel declares itself *)",
